@@ -184,6 +184,12 @@ def load_repid():
     logging.getLogger("aiormq").disabled = True
     logging.getLogger("aiormq.connection").disabled = True
     logging.getLogger("aiormq.channel").disabled = True
+    import warnings
+
+    warnings.filterwarnings("ignore", category=RuntimeWarning)
+    warnings.filterwarnings("ignore", category=DeprecationWarning)
+    warnings.filterwarnings("ignore", category=ResourceWarning)
+    sys.unraisablehook = lambda *a: None
     repid = _repid
     return _repid
 
